@@ -50,6 +50,24 @@ const AES128: u8 = 2;
 // - - X X    X X X X
 const KT_ALG_MASK: u8 = 0x3f;
 
+#[cfg(gufo_snmp_verif)]
+impl PrivKey {
+    /// (cipher code, next salt counter, private buffer length)
+    pub fn verif_state(&self) -> (u8, u64, usize) {
+        match self {
+            PrivKey::NoPriv(_) => (NO_PRIV, 0, 0),
+            PrivKey::Des(k) => {
+                let (s, l) = k.verif_state();
+                (DES, s, l)
+            }
+            PrivKey::Aes128(k) => {
+                let (s, l) = k.verif_state();
+                (AES128, s, l)
+            }
+        }
+    }
+}
+
 impl PrivKey {
     pub fn new(code: u8) -> SnmpResult<PrivKey> {
         Ok(match code & KT_ALG_MASK {
